@@ -452,6 +452,11 @@ def _reproduces(h, test, native, bad=None):
     if r.get("outcome") != "failed":
         return False
     msg = r.get("message", "")
+    # a panic raised by the playback machinery itself is not the harness failing: "Not enough det vals found"
+    # means the native run got PAST the check CBMC predicted to fail and asked for a nondeterministic value the
+    # counterexample never assigned (CBMC's model of a library function, e.g. fmaf, differs from the machine's)
+    if "Not enough det vals found" in msg or re.search(r"panicked at [^\n]*concrete_playback\.rs", msg):
+        return False
     if h.get("should_panic"):
         # the documented panic also fails the native test: only an unexpected failure counts
         if "K-NOPANIC" in msg:
